@@ -566,11 +566,11 @@ def mon_C06(case):
         pre = prev_state(case, i)
         act = case.actor(w) if w[0] not in ("restart", "unload") and len(w) > 1 else None
         for t, row in ln.store.items():
-            if row["state"] != 0 or t.startswith("P:"):
+            if row["state"] == 20 or t.startswith("P:"):
                 continue               # a peer-to-peer topic has two equal participants and no owner
             ow = owners_of(row)
             prow = pre.store.get(t) if pre else None
-            pow_ = owners_of(prow) if prow and prow["state"] == 0 else None
+            pow_ = owners_of(prow) if prow and prow["state"] != 20 else None
             if len(ow) != 1 and (pow_ is None or len(pow_) == 1 or pow_ != ow):
                 out.append((i, f"C06 {t} has {len(ow)} owners {ow} after `{w[0]}` (before: {pow_})"))
             if pow_ is not None and len(pow_) == 1 and ow != pow_:
@@ -587,10 +587,10 @@ def mon_C06(case):
         if pre is not None and act is not None and len(w) > 2:
             t = w[2]
             prow = pre.store.get(t)
-            if prow is not None and prow["state"] == 0 and not t.startswith("P:"):
+            if prow is not None and prow["state"] != 20 and not t.startswith("P:"):
                 pow_ = owners_of(prow)
                 row = ln.store.get(t)
-                gone = row is None or row["state"] != 0
+                gone = row is None or row["state"] == 20
                 if gone and act[0] not in pow_ and w[0] != "restart":
                     out.append((i, f"C06 {t} deleted by `{w[0]}` of {act[0]} who is not its owner {pow_}"))
                 if row is not None and not gone and act[0] not in pow_:
@@ -617,6 +617,13 @@ def mon_C07(case):
         if pre is None or w[0] in ("restart", "unload", "fg"):
             continue
         act = case.actor(w) if len(w) > 1 else None
+        # a p2p topic goes (with the subscriptions and the history of both) only at the request of a participant who still is one
+        for t, prow in pre.store.items():
+            if t.startswith("P:") and t not in ln.store:
+                a = prow["subs"].get(act[0]) if act else None
+                left = [u for u, r in prow["subs"].items() if not r["deleted"]]
+                if (a is None or a["deleted"]) and left:        # (a topic nobody is subscribed to any more is swept away by anybody's request)
+                    out.append((i, f"C07 [p2p-delete-by-outsider] `{w[0]}` of {act[0] if act else '?'}, who is not subscribed to {t}, deleted it with the subscription of {left}"))
         for t, row in ln.store.items():
             prow = pre.store.get(t)
             live = [u for u, s in row["subs"].items() if not s["deleted"]]
@@ -1183,6 +1190,7 @@ def mon_C10_me(case):
     bg = {s: v["bg"] for s, v in case.sess.items()}
     faulted = False
     offmuted = set()       # (user, topic) muted through a session which was not attached
+    forced = set()         # (user, other user) whose `me` was made to listen by the other user's "on+en" although the user has muted the topic
     phantom = set()        # topics with a subscription left behind by a request which was refused (reported by C08: [partial-write:newgrp] and the like)
     for i, (o, ln) in enumerate(zip(case.ops, case.lines)):
         w = o.split(" ")
@@ -1195,6 +1203,9 @@ def mon_C10_me(case):
         pre = prev_state(case, i)
         if w[0] == "restart":
             offmuted.clear()
+            forced.clear()
+        if w[0] == "meunload" and len(w) > 1:
+            forced = {x for x in forced if x[0] != w[1]}
         if w[0] == "setsub" and len(w) > 2 and pre is not None and w[2] not in pre.sess.get(w[1], set()):
             # a subscription muted through a session which is not attached to the topic: the row is written behind the back of the
             # loaded topic and of the user's `me` (C08 [offline-set]); nothing tells `me` to stop listening
@@ -1251,7 +1262,9 @@ def mon_C10_me(case):
             if not modes:
                 out.append((i, f"C10 [{'me-on-en:removed' if enby else 'me-removed'}] `{fw[0]} {what}` about {src} delivered on `me` to {sid} of {u} whose subscription is deleted"))
             elif not any(has(m, "P") for m in modes):
-                tag = "me-on-en:muted" if enby else (f"me-muted-offline:{what}" if (u, topic) in offmuted else f"me-muted:{what}")
+                if enby:
+                    forced.add((u, src))
+                tag = "me-on-en:muted" if (enby or (u, src) in forced) else (f"me-muted-offline:{what}" if (u, topic) in offmuted else f"me-muted:{what}")
                 out.append((i, f"C10 [{tag}] `{fw[0]} {what}` about {src} delivered on `me` to {sid} of {u} whose permissions {modes} lack presence"))
             elif not any(has(g, "J") for g in givens):
                 # banned = the topic's managers took J away; a user who dropped J from the own request has left of the own accord
@@ -1299,7 +1312,7 @@ def mon_C10_me(case):
             if own is None or not has(eff(own["want"], own["given"]), "P"):
                 continue            # without P on the own `me` nothing is passed on to this user's sessions
             for key, row in ln.store.items():
-                if row["state"] != 0 or key in phantom:
+                if row["state"] == 20 or key in phantom:
                     continue
                 mine = row["subs"].get(ou)
                 if mine is None or mine["deleted"] or not has(eff(mine["want"], mine["given"]), "P") or \
@@ -1461,7 +1474,7 @@ def mon_C14(case):
         if w[0] == "deltopic" and len(w) > 2:
             pre = prev_state(case, i)
             t = w[2]
-            if pre is not None and t in pre.store and (t not in ln.store or ln.store[t]["state"] != 0):
+            if pre is not None and t in pre.store and (t not in ln.store or ln.store[t]["state"] == 20):
                 for sid, tops in ln.sess.items():
                     if t in tops:
                         out.append((i, f"C14 {t} was deleted but session {sid} is still attached"))
@@ -1473,7 +1486,7 @@ def mon_C14(case):
         if w[0] in ("sub", "pub", "get", "note") and len(w) > 2 and i > 0:
             pre = prev_state(case, i)
             t = w[2]
-            if pre is not None and t in pre.store and pre.store[t]["state"] != 0 and w[0] == "sub":
+            if pre is not None and t in pre.store and pre.store[t]["state"] == 20 and w[0] == "sub":
                 if any(s == w[1] and f.startswith("ctrl 2") for s, f in ln.frames):
                     out.append((i, f"C14 subscribe to the deleted topic {t} was accepted"))
     return out
